@@ -240,7 +240,7 @@ func c12Sides(c *core.Check) {
 // c12RepeatedGroups: the space taken by a repeated table footer is withheld from the body rows.
 func c12RepeatedGroups(c *core.Check) {
 	p := c.Prog
-	r := c.Rule("R8", "repeated table header and footer groups: in tableLayout every layout of the body row groups that can only run with a footer kept for the page withholds the footer's height from the space given to the rows (bottomSpace + footerHeight), and every one that can only run without a footer does not — otherwise the rows fill the page and the repeated footer is placed below it", 4)
+	r := c.Rule("R8", "repeated table header and footer groups: in tableLayout every layout of the body row groups that can only run with a footer kept for the page withholds the footer's height from the space given to the rows (bottomSpace + footerHeight), and every one that can only run without a footer does not — otherwise the rows fill the page and the repeated footer is placed below it", 2)
 	var fn *ssa.Function
 	for _, f := range p.FuncsOfPkg("html/layout") {
 		root := f
